@@ -254,6 +254,27 @@ func H_clear_incr_clear_incr() {
 }
 `)
 	b.WriteString(`
+// round 7 (seed C16-m13): a cleared pool brought back by a two-rule incremental update, then single rules
+// re-sent incrementally at the same and at a symbolic salience, then a third rule added and one removed
+func H_clear_incr_two_then_resend() {
+	gp, _ := zzState(0, 3, 2)
+	gp.ClearPoolRules()
+	zzMust(gp.UpdatePooledRulesIncremental(zzRule("a", 1, "10")+zzRule("b", 1, "5")), "incremental update after clear")
+	zzCheckPool(gp, map[string]zzSpec{"a": {1, 10, "da"}, "b": {1, 5, "db"}}, SortModel)
+	zzMust(gp.UpdatePooledRulesIncremental(zzRule("b", 2, "5")), "lower rule re-sent at the same salience")
+	zzCheckPool(gp, map[string]zzSpec{"a": {1, 10, "da"}, "b": {2, 5, "db"}}, SortModel)
+	q := vnd.Int64("q")
+	zzMust(gp.UpdatePooledRulesIncremental(zzRule("a", 3, vnd.SalText(q))), "upper rule re-sent at a symbolic salience")
+	zzCheckPool(gp, map[string]zzSpec{"a": {3, q, "da"}, "b": {2, 5, "db"}}, SortModel)
+	zzMust(gp.UpdatePooledRulesIncremental(zzRule("x", 4, "7")), "a third rule added")
+	zzCheckPool(gp, map[string]zzSpec{"a": {3, q, "da"}, "b": {2, 5, "db"}, "x": {4, 7, "dx"}}, SortModel)
+	zzMust(gp.RemoveRules([]string{"b"}), "removal")
+	zzCheckPool(gp, map[string]zzSpec{"a": {3, q, "da"}, "x": {4, 7, "dx"}}, SortModel)
+	vnd.Reach("executed")
+}
+`)
+	fam.Instances = append(fam.Instances, Instance{Func: "H_clear_incr_two_then_resend", Stratum: "sequence", Desc: "clear, two-rule incremental update, rules re-sent incrementally, addition, removal", Expect: []string{"executed"}})
+	b.WriteString(`
 // a full update denotes exactly the rule set of its text, also when that very text was in force before an
 // incremental update changed the set (text in force from construction, and from a full update)
 func H_full_incr_same_full() {
